@@ -70,6 +70,12 @@ Theorem C17_find_ok_iff_fix_ok : forall s : bytes, is_ok (FindArrayIndex s) = is
 Proof. exact fai_ok_iff. Qed.
 Print Assumptions C17_find_ok_iff_fix_ok.
 
+(* the pairs FindArrayIndex returns are NOT the nesting pairs (the outer bracket of [[1]] is paired
+   with the inner closing one); processors_test.go pins this output, and by the theorem above the
+   rewrite does not depend on it *)
+Example C17_fifo_pairing : FindArrayIndex "[[1]]" = Ok [(0, 3); (1, 4)]%Z.
+Proof. vm_compute. reflexivity. Qed.
+
 (* both options: in the order New applies them, and in the other order, the text that reaches the
    parser is the canonical MySQL / ARRAY() spelling *)
 Theorem C17_commute : forall d, wf d = true ->
